@@ -78,24 +78,45 @@ pub fn panic_class(m: &str) -> String {
     out
 }
 
-/// Run a decoder step: allocation recorder armed, panics caught. `site` names the call.
+thread_local! {
+    static PANIC_AT: std::cell::RefCell<(String, u32)> = const { std::cell::RefCell::new((String::new(), 0)) };
+}
+
+/// Quiet panic hook that remembers where the panic was raised (source file and line). Chained
+/// in front of whatever hook is installed at the first guarded call.
+fn install_location_hook(chain: bool) {
+    static ONCE: std::sync::Once = std::sync::Once::new();
+    ONCE.call_once(|| {
+        let prev = std::panic::take_hook();
+        std::panic::set_hook(Box::new(move |info| {
+            if let Some(l) = info.location() {
+                let file = l.file().rsplit('/').next().unwrap_or("").to_string();
+                let _ = PANIC_AT.try_with(|p| *p.borrow_mut() = (file, l.line()));
+            }
+            if chain {
+                prev(info);
+            }
+        }));
+    });
+}
+
+/// Run a decoder step: allocation recorder armed, panics caught. `site` names the call; the
+/// signature of a panic is made of the call site, the source file that raised it and the
+/// categorical part of the message.
 pub fn guarded<R>(site: &str, f: impl FnOnce() -> R) -> Result<(R, usize), OFail> {
+    install_location_hook(true);
     let (r, max_alloc) = measure(|| catch_unwind(AssertUnwindSafe(f)));
     match r {
         Ok(v) => Ok((v, max_alloc)),
         Err(p) => {
             let m = panic_text(p);
-            fail(format!("panic:{site}:{}", panic_class(&m)), format!("{site} panicked: {m}"))
+            let (file, line) = PANIC_AT.with(|p| p.borrow().clone());
+            fail(format!("panic:{site}:{file}:{}", panic_class(&m)), format!("{site} panicked at {file}:{line}: {m}"))
         },
     }
 }
 
-/// Largest observed (allocation / bound) in per-mille, for calibration runs (NV_C20_STATS=1).
-pub static MAX_RATIO_PM: std::sync::atomic::AtomicU64 = std::sync::atomic::AtomicU64::new(0);
-
 fn check_alloc(site: &str, got: usize, bound: usize, why: &str) -> ORes {
-    let pm = (got as u64).saturating_mul(1000) / (bound.max(1) as u64);
-    MAX_RATIO_PM.fetch_max(pm, Ordering::Relaxed);
     if got > bound {
         return fail(
             format!("alloc:{site}"),
@@ -1051,7 +1072,10 @@ pub fn fuzz_entry(target: &str, data: &[u8]) {
     static HOOK: std::sync::Once = std::sync::Once::new();
     // libfuzzer-sys installs a panic hook that aborts; product panics are caught and classified
     // here instead, so that a recorded known defect does not end the campaign.
-    HOOK.call_once(|| std::panic::set_hook(Box::new(|_| {})));
+    HOOK.call_once(|| {
+        std::panic::set_hook(Box::new(|_| {}));
+        install_location_hook(false);
+    });
     let known = KNOWN.get_or_init(known_sigs);
     let mut obs = Obs::default();
     if let Err(f) = run_target(target, data, &mut obs) {
